@@ -516,6 +516,19 @@ func runC08(c *core.Case) {
 				c.Violate("C08/handoff-to-unknown-accepted", "Handoff to a node id that is not connected returned success", detail())
 			}
 			c.Count("handoff_refused", 1)
+			// Node id 0 is nobody's: the primary's own backup loop subscribes to the
+			// change set under it, and so does a /stream request without an id header.
+			// A handoff "to node 0" would park the lease with no one to take it.
+			sub := n.Store.SubscribeChangeSet(0)
+			err = n.Store.Handoff(context.Background(), 0)
+			time.Sleep(50 * time.Millisecond)
+			stillPrimary := n.Store.IsPrimary()
+			_ = sub.Close()
+			if err == nil || !stillPrimary {
+				c.Violate("C08/handoff-to-unknown-accepted", fmt.Sprintf("node-zero: Handoff to node id 0 (an anonymous change-set subscriber, such as the backup loop, is registered under it) returned %v; n0 primary afterwards: %v", err, stillPrimary), detail())
+				return
+			}
+			c.Count("handoff_to_node_zero_refused", 1)
 		case "handoff-disconnected":
 			id := target.Store.ID()
 			if variant%2 == 1 {
